@@ -481,11 +481,16 @@ JudgeGet(ev, pre, i) ==
     LET cur == CurTag(pre, ev.c, ev.n)  c == CondOf(ev.inm) IN
     IF cur = NoTag THEN
         (IF ev.resp.cls # "notfound" THEN Viol("C01", [w |-> "get-of-absent-not-404", cls |-> ev.resp.cls], i) ELSE {})
-    ELSE IF c.present /\ CondMatches(c, cur) THEN
+    ELSE
+    \* C02: an ETag header on the answer of a GET / HEAD (200 or 304) is the resource's etag
+    (IF ev.resp.etag # 0 /\ ev.resp.etag # cur
+       THEN Viol("C02", [w |-> "etag-header-of-get-differs-from-getetag", cls |-> ev.resp.cls], i) ELSE {})
+    \cup
+    (IF c.present /\ CondMatches(c, cur) THEN
         (IF ev.resp.cls # "notmodified" \/ ev.bodylen # 0
            THEN Viol("C03", [w |-> "if-none-match-not-304", cls |-> ev.resp.cls, len |-> ev.bodylen], i) ELSE {})
-    ELSE
-        (IF ev.resp.cls # "ok" THEN Viol("C03", [w |-> "get-not-served", cls |-> ev.resp.cls], i) ELSE {})
+     ELSE
+        (IF ev.resp.cls # "ok" THEN Viol("C03", [w |-> "get-not-served", cls |-> ev.resp.cls], i) ELSE {}))
 
 \* C14: re-uploading what the server serves is a no-op
 JudgeReupload(ev, pre, post, i) ==
